@@ -285,8 +285,15 @@ impl<W: Write> Runner<W> {
         writeln!(self.out, "{}", ev).unwrap();
     }
 
-    /// Execute one scripted op.
+    /// Execute one scripted op; a panic anywhere in the code under test is data (a `panic` event), never a harness crash.
     pub fn exec(&mut self, v: &Value) {
+        if let Err(e) = catch_unwind(AssertUnwindSafe(|| self.exec_inner(v))) {
+            let op = v.get("op").and_then(|x| x.as_str()).unwrap_or("").to_string();
+            self.emit_panic(&op, v.clone(), panic_msg(e));
+        }
+    }
+
+    fn exec_inner(&mut self, v: &Value) {
         let op = v.get("op").and_then(|x| x.as_str()).unwrap_or("").to_string();
         let n = geti(v, "n").unwrap_or(1).max(1);
         match op.as_str() {
